@@ -60,6 +60,27 @@ class C04(Prop):
             fs = [self._frame(rng, kinds) for _ in range(rng.randrange(1, 7))]
             total = sum(10 + len(f[5]) for f in fs)
             cases.append({"kind": "random-chunking", "frames": fs, "chunks": chunking(rng, total)})
+        # look-alikes within one stream: frames of the same kind, addressing and length whose contents differ but have the
+        # same XOR (permuted payload bytes, two bytes changed by the same mask), with other frames in between
+        for _ in range(n // 6):
+            base = self._frame(rng, kinds)
+            while len(base[5]) < 2:
+                base = self._frame(rng, kinds)
+            fs = [base]
+            for _ in range(rng.randrange(1, 4)):
+                if rng.random() < 0.4:
+                    fs.append(self._frame(rng, kinds))
+                p = list(fs[0][5])
+                i, j = rng.sample(range(len(p)), 2)
+                if rng.random() < 0.5 and p[i] != p[j]:
+                    p[i], p[j] = p[j], p[i]
+                else:
+                    m = rng.randrange(1, 256)
+                    p[i] ^= m
+                    p[j] ^= m
+                fs.append([base[0], base[1], base[2], base[3], base[4], p])
+            total = sum(10 + len(f[5]) for f in fs)
+            cases.append({"kind": "xor-twins", "frames": fs, "chunks": chunking(rng, total) if rng.random() < 0.5 else None})
         # cuts exactly at every header/body boundary
         for _ in range(n // 6):
             fs = [self._frame(rng, kinds) for _ in range(rng.randrange(1, 4))]
